@@ -4,6 +4,9 @@ Domain   generated trees with nested histories placed by running create at gener
          (siblings, chains to depth 4+, sibling names that are prefixes of each other, sibling histories in equally named folders, children created after the
          parent had already recorded their files), tree edits, then folder-mode or -sf creates at any history
          root, with and without -n.  Every create of the history is observed.
+         Later additions: the excluded nested history named by its path ('grp/Skip') or by an anchored pattern ('/Skip')
+         beside a namesake that stays in; the pattern introduced by a -n run; a -sf run over three histories whose
+         first file fails verification.
 Oracle   the harness's tree model assigns each entry to the deepest enclosing history root: per written manifest
          the exact record set (shared with C02); each nested root appears in its parent's new manifest as a
          directory record whose hashes equal the child's own <roothash> (none with -n); the set of histories
